@@ -326,7 +326,15 @@ def r19_5(ctx):
                 sty = f.locals[src_l]["ty"] if src_l is not None else rv["op"].get("ty")
                 a, c = ty_range(sty or ""), ty_range(rv["ty"])
                 if a and c and not (c[0] <= a[0] and a[1] <= c[1]):
-                    bad.append((sty, rv["ty"], st.get("ln")))
+                    # a narrowing cast is fine where the guards in front of it confine the value to the target range
+                    # (`0..=U64_MAX => value as u64`): interval analysis of this function
+                    from ..intervals import Intervals
+                    try:
+                        v = Intervals(f).operand_at_stmt(b, i, rv["op"])
+                    except Exception:
+                        v = None
+                    if not (v and c[0] <= v[0] and v[1] <= c[1]):
+                        bad.append((sty, rv["ty"], st.get("ln")))
         ctx.ob("R19.5", f"exact-integers:{f.name}", not bad, f.loc(bad[0][2] if bad else None),
                "integer casts are widening only" if not bad else
                f"`as` cast {bad[0][0]} -> {bad[0][1]} is not value preserving: values outside the target range wrap instead of taking the out-of-range error the text route's counterpart is")
